@@ -922,12 +922,26 @@ pub fn builtin(w: &mut World, script: &mut dyn Script, rq: &ReqInfo, req: &Reque
             w.cluster.all_ids.insert(id.clone(), text.clone());
             let mid = w.cluster.result_metadata_id(&stmt);
             let md_ext = w.conns[conn].cql.metadata_id_ext;
+            // Conditional statements are prepared without result columns (the node only
+            // knows the columns of the "[applied]" row when it executes them).
+            let hide_result_cols = stmt.kind == StmtKind::Lwt;
+            // ... and the metadata id announced with the (empty) prepared metadata is not
+            // the id of the real result metadata: the first execution learns the real one.
+            let mid = if hide_result_cols {
+                let mut m = mid.clone();
+                if let Some(b) = m.first_mut() {
+                    *b ^= 0xff;
+                }
+                m
+            } else {
+                mid
+            };
             let body = wire::body_prepared(&PreparedBody {
                 id: &id,
                 result_metadata_id: if md_ext { Some(&mid) } else { None },
                 bind_cols: &stmt.bind_cols,
                 pk_indexes: &stmt.pk_indexes,
-                result_cols: &stmt.result_cols,
+                result_cols: if hide_result_cols { &[] } else { &stmt.result_cols },
             });
             let mut env = Envelope::default();
             if stmt.kind == StmtKind::Lwt && w.conns[conn].cql.lwt_ext {
